@@ -265,6 +265,12 @@ class Expander:
                 # the definition must dominate the use (no path bypassing it): unique reaching def guarantees it
                 self.expanded_paths.add(path)
                 return self._x(d.value, d.node, depth + 1, seen | {id(d)}, stop)
+            if d is not None and d.kind == 'aug' and id(d) not in seen and d.node is not at:
+                av = self._aug_value(d)
+                if av is not None:
+                    # `x op= E` outside any cycle: the value is `<x before> op E`, expanded with the facts reaching INTO it
+                    self.expanded_paths.add(path)
+                    return self._x(av, d.node, depth + 1, seen | {id(d)}, stop)
             if d is None and isinstance(e, ast.Name):
                 j = self._conditional_overwrite(path, at, depth, seen, stop)
                 if j is not None:
@@ -335,6 +341,20 @@ class Expander:
             return new
         return e
 
+    def _aug_value(self, d):
+        """`x op= E` on a plain local name that is not on a cycle of the CFG (so "the value before" is what reaches the
+        statement): the expression `x op E`; None otherwise"""
+        st = d.stmt
+        if not (isinstance(st, ast.AugAssign) and isinstance(st.target, ast.Name)) or d.node is None:
+            return None
+        if st.target.id in self._mutated_names():
+            return None
+        cfg = self.flow.cfg
+        if cfg.can_reach(d.node, d.node):
+            return None
+        v = ast.BinOp(left=ast.Name(id=st.target.id, ctx=ast.Load()), op=copy.deepcopy(st.op), right=st.value)
+        return ast.copy_location(v, st)
+
     def _conditional_overwrite(self, var, at, depth, seen, stop):
         """x = A; if c: x = B; ... x ...    ->   (B if c else A);  the special cases `if not x` / `if x is None` give `A or B` /
         `A if A is not None else B`.  Only when exactly these two definitions reach the use, the first dominates both the
@@ -342,14 +362,19 @@ class Expander:
         ds = self.flow.reaching(var, at)
         if 2 < len(ds) <= 6 and all(d.kind == 'assign' and d.value is not None and d.node is not None and id(d) not in seen for d in ds):
             return self._tree_join(var, ds, at, depth, seen, stop)
-        if len(ds) != 2 or any(d.kind != 'assign' or d.value is None or d.node is None or id(d) in seen for d in ds):
+        if len(ds) != 2 or any(d.node is None or id(d) in seen for d in ds):
+            return None
+        # x = A; if c: x op= B  ->  (A op B) if c else A: the augmented assignment is a definition whose value is `x op B`
+        val = {id(d): (d.value if d.kind == 'assign' else self._aug_value(d) if d.kind == 'aug' else None) for d in ds}
+        if any(v is None for v in val.values()):
             return None
         cfg = self.flow.cfg
-        dia = self._diamond(var, ds, at, depth, seen, stop)
-        if dia is not None:
-            return dia
+        if all(d.kind == 'assign' for d in ds):
+            dia = self._diamond(var, ds, at, depth, seen, stop)
+            if dia is not None:
+                return dia
         for d1, d2 in (ds, ds[::-1]):
-            if d1.node is d2.node or d1.node is at or d2.node is at:
+            if d1.node is d2.node or d1.node is at or d2.node is at or d1.kind != 'assign':
                 continue
             if not (cfg.dominates(d1.node, d2.node) and cfg.dominates(d1.node, at)):
                 continue
@@ -365,7 +390,7 @@ class Expander:
                 continue
             s2 = seen | {id(d1), id(d2)}
             a = self._x(d1.value, d1.node, depth + 1, s2, stop)
-            b = self._x(d2.value, d2.node, depth + 1, seen | {id(d2)}, stop)      # may mention the previous value (d1)
+            b = self._x(val[id(d2)], d2.node, depth + 1, seen | {id(d2)}, stop)      # may mention the previous value (d1)
             this = ast.Name(id=var, ctx=ast.Load())
             t = test if pol else ast.UnaryOp(op=ast.Not(), operand=test)
             self.expanded_paths.add(var)
